@@ -1,4 +1,9 @@
 #!/bin/sh
 cd "$(dirname "$0")"
 [ -x bin/gocv ] || ./build.sh || exit 2
+if [ $# -eq 0 ]; then
+  tools/detcheck.sh C14 ./consensus/walstore || exit 1
+  tools/detcheck.sh C04 ./core/state ./core/deprecatedstate ./core ./blockchain/statebackend ./blockchain || exit 1
+  tools/detcheck.sh C12 ./consensus/tendermint ./consensus/votecounter || exit 1
+fi
 exec python3 selftest/run.py "$@"
